@@ -22,6 +22,11 @@ def keyboard_interrupt_on_sigterm(signum, frame):
     raise KeyboardInterrupt()
 
 
+def setup_signal_handling():
+    """Turn SIGTERM into a KeyboardInterrupt, as early as the session starts."""
+    _setup_signal_handling_if_needed()
+
+
 def _setup_signal_handling_if_needed():
     if current_thread() is not main_thread():
         return
